@@ -48,18 +48,17 @@ Definition type_string (k : ev_kind) : bytes :=
 Definition merge_labels (honor : bool) (tags : lmap) (rule_labels : lmap) : lmap :=
   fold_left (fun m kv => if honor && lm_mem (fst kv) m then m else lm_set (fst kv) (snd kv) m) rule_labels tags.
 
-Record exporter := { x_registry : registry; x_tel : telemetry }.
+(* what handleEvent decides before it touches the registry *)
+Inductive decision :=
+| DDone (tel : telemetry)                    (* dropped by action, or rejected with an error counter *)
+| DUpdate (tel : telemetry) (t : mtype) (name : bytes) (labels : lmap) (help : bytes) (ttl : Z)
+          (rule_ : option rule) (upd : mvalue -> res mvalue).
 
-Inductive hres := HOk (x : exporter) | HPanic.
-
-(* handleEvent, given what GetMapping answered: [mapped] = Some (rule, formatted name, labels) *)
-Definition handle_event (d : defaults) (now : Z) (x : exporter) (e : event)
-           (mapped : option (rule * bytes * lmap)) : hres :=
-  let tel := x_tel x in
-  let rg := x_registry x in
+Definition classify (d : defaults) (tel : telemetry) (e : event)
+           (mapped : option (rule * bytes * lmap)) : decision :=
   let ttl := match mapped with Some (r, _, _) => ru_ttl r | None => df_ttl d end in
   if match mapped with Some (r, _, _) => ru_drop r | None => false end
-  then HOk {| x_registry := rg; x_tel := tl_action tel s_drop |}
+  then DDone (tl_action tel s_drop)
   else
     let help := match mapped with
                 | Some (r, _, _) => match ru_help r with [] => default_help | h => h end
@@ -79,38 +78,50 @@ Definition handle_event (d : defaults) (now : Z) (x : exporter) (e : event)
         end
       end in
     match named with
-    | None => HOk {| x_registry := rg;
-                     x_tel := tl_error (match mapped with None => tl_unmapped tel | Some _ => tel end) s_empty_metric_name |}
+    | None => DDone (tl_error (match mapped with None => tl_unmapped tel | Some _ => tel end) s_empty_metric_name)
     | Some (name, labels, tel1) =>
       if existsb (fun k => has_prefix reserved_prefix k) (lm_keys labels)
-      then HOk {| x_registry := rg; x_tel := tl_error tel1 s_reserved_label |}
+      then DDone (tl_error tel1 s_reserved_label)
       else
         let value := match mapped with
                      | Some (r, _, _) => match ru_scale r with Some s => f_mul (e_value e) s | None => e_value e end
                      | None => e_value e end in
         let rule_ := match mapped with Some (r, _, _) => Some r | None => None end in
-        let finish := fun (t : mtype) (upd : mvalue -> res mvalue) =>
-          match get_series rg d rule_ now t name labels help ttl with
-          | GPanic => HPanic
-          | GConflict rg' => HOk {| x_registry := rg'; x_tel := tl_conflict tel1 (type_string (e_kind e)) name |}
-          | GOk rg' n vk vals =>
-            match update_series rg' n vk vals upd with
-            | Ok rg'' => HOk {| x_registry := rg''; x_tel := tl_event tel1 (type_string (e_kind e)) |}
-            | Panic => HPanic
-            end
-          end in
         match e_kind e with
         | KCounter =>
           if f_ltb value f_zero || f_is_nan value
-          then HOk {| x_registry := rg; x_tel := tl_error tel1 s_illegal_negative_counter |}
-          else finish MCounter (fun c => counter_add c value)
-        | KGauge rel => finish MGauge (fun g => if rel then gauge_add g value else gauge_set g value)
+          then DDone (tl_error tel1 s_illegal_negative_counter)
+          else DUpdate tel1 MCounter name labels help ttl rule_ (fun c => counter_add c value)
+        | KGauge rel =>
+          DUpdate tel1 MGauge name labels help ttl rule_ (fun g => if rel then gauge_add g value else gauge_set g value)
         | KObserver =>
           let t0 := match mapped with Some (r, _, _) => ru_observer r | None => ObsDefault end in
           let t := match t0 with ObsDefault => df_observer d | _ => t0 end in
           let is_hist := match t with ObsHistogram => true | _ => false end in
           if lm_mem (if is_hist then s_le else s_quantile) labels
-          then HOk {| x_registry := rg; x_tel := tl_error tel1 s_reserved_label |}
-          else finish (if is_hist then MHistogram else MSummary) (fun o => observe o value)
+          then DDone (tl_error tel1 s_reserved_label)
+          else DUpdate tel1 (if is_hist then MHistogram else MSummary) name labels help ttl rule_ (fun o => observe o value)
         end
     end.
+
+Record exporter := { x_registry : registry; x_tel : telemetry }.
+
+Inductive hres := HOk (x : exporter) | HPanic.
+
+(* handleEvent, given what GetMapping answered: [mapped] = Some (rule, formatted name, labels) *)
+Definition handle_event (d : defaults) (now : Z) (x : exporter) (e : event)
+           (mapped : option (rule * bytes * lmap)) : hres :=
+  let rg := x_registry x in
+  match classify d (x_tel x) e mapped with
+  | DDone tel => HOk {| x_registry := rg; x_tel := tel |}
+  | DUpdate tel1 t name labels help ttl rule_ upd =>
+    match get_series rg d rule_ now t name labels help ttl with
+    | GPanic => HPanic
+    | GConflict rg' => HOk {| x_registry := rg'; x_tel := tl_conflict tel1 (type_string (e_kind e)) name |}
+    | GOk rg' n vk vals =>
+      match update_series rg' n vk vals upd with
+      | Ok rg'' => HOk {| x_registry := rg''; x_tel := tl_event tel1 (type_string (e_kind e)) |}
+      | Panic => HPanic
+      end
+    end
+  end.
